@@ -141,10 +141,16 @@ def rule_core(repo, rep):
       rep.rule(Rd, 'when n_constraints is None it is 20 * (number of '
                'classes in y) ** 2')
       found = None
+      # the local that holds the hyper-parameter (found by role)
+      holders = set(n.targets[0].id for n in ast.walk(fs.node)
+                    if isinstance(n, ast.Assign) and
+                    isinstance(n.targets[0], ast.Name) and
+                    ast.unparse(n.value) == 'self.n_constraints')
       for n in ast.walk(fs.node):
         if isinstance(n, ast.Assign) and isinstance(n.targets[0], ast.Name) \
-                and n.targets[0].id == 'n_constraints' and \
-                'n_constraints is None' in astutil.path_condition(fs.node, n):
+                and n.targets[0].id in holders and \
+                '%s is None' % n.targets[0].id in \
+                astutil.path_condition(fs.node, n):
           found = n
       if found is None:
         rep.unknown(Rd, sup + '.fit', site(fs), 'default not found')
